@@ -256,62 +256,38 @@ Definition parse_title (cap : bool) (toks : list tok) : res (tok * list tok) :=
   let (sc, r') := y in
   if text_eqb sc t_semi then Ok (title, r') else Err ParseErr.
 
-(* _parse_link_statement: returns links['taxa'].  A token that is neither TAXA nor CHARACTERS nor
-   ';' makes the real loop spin without fetching (defect F21): reported as Hang. *)
-Definition kw_CHARS_LINK := kw_CHARACTERS.
+(* _parse_link_statement: returns links['taxa'].  `token` is the current token (upper-cased by the
+   fetch that delivered it; None at the end of the input). *)
 Fixpoint parse_link (fuel : nat) (cap : bool) (taxa : option tok) (token : option tok) (toks : list tok)
   : res (option tok * list tok) :=
   match fuel with
   | O => OutOfFuel
   | S f =>
     match token with
-    | None => Err Hang                         (* None != ';' and nothing is fetched *)
+    | None => Err ParseErr                     (* the else branch: require_next_token_ucase at the end *)
     | Some t =>
+      let fetch r := match next_tok cap r with
+                     | Some (t', r') => (Some (ucase t'), r')
+                     | None => (None, [])
+                     end in
       if text_eqb t t_semi then Ok (taxa, toks)
-      else if text_eqb t kw_TAXA then
+      else if text_eqb t kw_TAXA || text_eqb t kw_CHARACTERS then
         match next_tok cap toks with
         | None => Err ParseErr
         | Some (e, r) =>
           if negb (text_eqb e t_eq) then Err ParseErr
           else match next_tok cap r with
-               | None => Err Hang
+               | None => Err ParseErr          (* value None, then the loop's else branch raises *)
                | Some (v, r') =>
-                 match next_tok cap r' with
-                 | None => Err Hang
-                 | Some (t', r'') =>
-                   if text_eqb t' kw_CHARACTERS then
-                     match next_tok cap r'' with
-                     | None => Err ParseErr
-                     | Some (e2, q) =>
-                       if negb (text_eqb e2 t_eq) then Err ParseErr
-                       else match next_tok cap q with
-                            | None => Err Hang
-                            | Some (_, q') =>
-                              match next_tok cap q' with
-                              | None => Err Hang
-                              | Some (t2, q'') => parse_link f cap (Some v) (Some t2) q''
-                              end
-                            end
-                     end
-                   else parse_link f cap (Some v) (Some t') r''
-                 end
+                 let (t', r'') := fetch r' in
+                 parse_link f cap (if text_eqb t kw_TAXA then Some v else taxa) t' r''
                end
         end
-      else if text_eqb t kw_CHARACTERS then
+      else
         match next_tok cap toks with
         | None => Err ParseErr
-        | Some (e2, q) =>
-          if negb (text_eqb e2 t_eq) then Err ParseErr
-          else match next_tok cap q with
-               | None => Err Hang
-               | Some (_, q') =>
-                 match next_tok cap q' with
-                 | None => Err Hang
-                 | Some (t2, q'') => parse_link f cap taxa (Some t2) q''
-                 end
-               end
+        | Some (t', r) => parse_link f cap taxa (Some (ucase t')) r
         end
-      else Err Hang
     end
   end.
 
@@ -583,7 +559,9 @@ Fixpoint read_states (st : nx_state) (a : alphabet) (nchar have : Z) (first : op
           else read_states st a nchar have first None acc r
         else if text_eqb t t_lbrace then read_states st a nchar have first (Some (Ambiguous, [])) acc r
         else if text_eqb t t_lpar then read_states st a nchar have first (Some (Polymorphic, [])) acc r
-        else if text_eqb t t_semi then Ok (RsTerminated a r)
+        else if text_eqb t t_semi then
+          if x_interleave st then Ok (RsTerminated a r)         (* BlockTerminatedException *)
+          else Err ParseErr                                     (* insufficient characters before ';' *)
         else match read_chars st a nchar have first acc t with
              | Ok acc' => read_states st a nchar have first None acc' r
              | Err e => Err e
@@ -601,14 +579,23 @@ Fixpoint read_states (st : nx_state) (a : alphabet) (nchar have : Z) (first : op
         | Err e => Err e
         | OutOfFuel => OutOfFuel
         end
+      else if text_eqb t [44] then read_states st a nchar have first mode acc r   (* "," between members: skipped *)
       else read_states st a nchar have first (Some (k, buf ++ t)) acc r
     end
   end.
 
 (* ---- MATRIX ------------------------------------------------------------- *)
 
+(* the resolver used when a block is read on its own: the namespace handed in stays *)
+Definition keep_ns (_ : option tok) (ns : list text) : res (list text) := Ok ns.
+
 Section NexusReader.
 Variable lower : text -> text.
+(* NexusReader._get_taxon_namespace(link_title), called by _parse_matrix_statement: the labels of
+   the namespace the block attaches to, given the LINK TAXA title (None without LINK) and the
+   namespace the reader state currently holds.  The data-set level definition is in C09Dataset.v;
+   `keep_ns` is the single-namespace reading. *)
+Variable resolve : option tok -> list text -> res (list text).
 
 Definition taxon_match (cs : bool) (name l : text) : bool :=
   if cs then text_eqb name l else text_eqb (lower name) (lower l).
@@ -652,7 +639,8 @@ Fixpoint matrix_loop (fuel : nat) (st : nx_state) (a : alphabet) (nchar : Z) (ro
   | O => OutOfFuel
   | S f =>
     match next_tok (x_cap st) toks with
-    | None => Ok (st, a, rows, [])
+    | None => if x_interleave st then Ok (st, a, rows, [])
+              else Err ParseErr                  (* MATRIX statement not terminated by ';' *)
     | Some (t, r) =>
       if text_eqb t t_semi then Ok (st, a, rows, r)
       else
@@ -694,10 +682,12 @@ Record block_result := mkBR {
 }.
 
 (* _parse_matrix_statement *)
-Definition parse_matrix (fuel : nat) (st : nx_state) (toks : list tok)
+Definition parse_matrix (fuel : nat) (st0 : nx_state) (toks : list tok)
   : res (nx_state * block_result * list tok) :=
-  match nonzero (x_ntax st), nonzero (x_nchar st) with
+  match nonzero (x_ntax st0), nonzero (x_nchar st0) with
   | Some _, Some nchar =>
+    do ns <- resolve (x_link st0) (x_ns st0) ;;
+    let st := set_ns st0 ns in
     match x_dtype st with
     | DtContinuous => Err OtherErr                           (* not modelled *)
     | dt =>
@@ -760,7 +750,9 @@ Definition read_chars_block (st : nx_state) (toks : list tok) : res (nx_state * 
       | Some (k, r') =>
         if text_eqb (ucase k) kw_CHARACTERS || text_eqb (ucase k) kw_DATA then
           let r'' := skip_semi (x_cap st) r' in
-          block_loop (S (length r'')) (set_dtype (set_link (set_title st None) None) DtStandard) [] r''
+          let st1 := set_dtype (set_link (set_title st None) None) DtStandard in
+          let st2 := match x_symbols st1 with [] => set_symbols st1 digits09 | _ => st1 end in
+          block_loop (S (length r'')) st2 [] r''
         else Err OtherErr
       | None => Err OtherErr
       end
